@@ -315,7 +315,11 @@ class Interp:
             for vals, s in acc:
                 if isinstance(x, ast.Starred):
                     for v, s2 in self.ev(x.value, s):
-                        nxt.append((vals + (T('star', v),), s2))
+                        c_ = s2.heap.get(v, v) if self._is_ref(v) else v
+                        if is_t(c_) and c_[1] in ('list', 'tuple') and not any(is_t(y) and y[1] == 'star' for y in c_[2:]):
+                            nxt.append((vals + tuple(c_[2:]), s2))          # [*concrete, x]: the items themselves
+                        else:
+                            nxt.append((vals + (T('star', v),), s2))
                 else:
                     for v, s2 in self.ev(x, s):
                         nxt.append((vals + (v,), s2))
@@ -539,6 +543,19 @@ class Interp:
                     nxt.append((vals + (v,), s2))
             acc = nxt
         out = []
+        # f(*concrete_tuple): the items are the positional arguments
+        spliced = []
+        for vals, s in acc:
+            flat = ()
+            for v in vals:
+                inner = v[2] if is_t(v) and v[1] == 'star' and len(v) == 3 else None
+                c_ = s.heap.get(inner, inner) if inner is not None and self._is_ref(inner) else inner
+                if inner is not None and is_t(c_) and c_[1] in ('list', 'tuple') and not any(is_t(y) and y[1] == 'star' for y in c_[2:]):
+                    flat += tuple(c_[2:])
+                else:
+                    flat += (v,)
+            spliced.append((flat, s))
+        acc = spliced
         for vals, s in acc:
             kacc = [({}, s)]
             for k in e.keywords:
@@ -703,6 +720,13 @@ class Interp:
         return out
 
     def _list_call(self, call, name, recv, args, kwargs, st):
+        if recv is None and name == 'tuple' and len(args) <= 1 and not kwargs:
+            # tuple(x) of a concrete sequence: an immutable VALUE holding the same items (no aliasing with x)
+            if not args:
+                return [('ok', T('tuple'), st)]
+            c = self.deref(args[0], st)
+            if is_t(c) and c[1] in ('list', 'tuple') and not any(is_t(y) and y[1] == 'star' for y in c[2:]):
+                return [('ok', T('tuple', *c[2:]), st)]
         if recv is None and name == 'list' and len(args) <= 1:
             if not args:
                 ref, s = self._alloc(T('list'), st)
@@ -757,6 +781,11 @@ class Interp:
 
     def call_function(self, fi, args, kwargs, st, recv=None):
         """Inline a repo function: -> list[(kind, value, state)] with kind in ok/raise."""
+        if self.fi_stack and fi.yields() and not getattr(self, 'inline_generators', False):
+            # calling a generator function runs nothing: its body runs lazily, interleaved with the consumer. That is not modelled; the opaque result and the
+            # 'generator' event tell the obligations that what follows is not a faithful trace
+            n, st = st.fresh()
+            return [('ok', T('generator', fi.name, C(n)), st.emit('generator', fi.name))]
         env = {}
         params = list(fi.params)
         argv = list(args)
